@@ -178,7 +178,7 @@ PROPS = {
     ),
     "C14": dict(
         theorems=["HC.C14.file_laws", "HC.C14.backend_indep", "HC.C14.cache_transparent", "HC.C14.cache_fill_ok",
-                  "HC.C14.cache_inv_transparent", "HC.C14.cache_inv_fill", "HC.C14.cache_inv_evict", "HC.C14.cache_inv_insert", "HC.C14.cache_inv_flush", "HC.C14.cache_inv_open", "HC.C14.agree_of_fresh", "HC.C14.backend_simulation", "HC.C14.backends_agree", "HC.C14.journal_on_backend"],
+                  "HC.C14.cache_inv_transparent", "HC.C14.cache_inv_fill", "HC.C14.cache_inv_evict", "HC.C14.cache_inv_insert", "HC.C14.cache_inv_flush", "HC.C14.cache_inv_open", "HC.C14.agree_of_fresh", "HC.C14.backend_simulation", "HC.C14.backends_agree", "HC.C14.journal_on_backend", "HC.C14.cstep_inv", "HC.C14.cache_invisible_along"],
         bridge_modules=["HC.Bridge.Stores"], bridging=STORES_BRIDGE,
         runs=_c14_runs, alt_builds=["nosparse"],
         partial="proved: the flat-file laws, congruence of reads/writes under byte-for-byte agreement, the lift of per-operation backend laws to every journal of the model (backend_simulation, backends_agree, journal_on_backend: a backend standing for a store of the model's disk still stands for it after the journal of any call), transparency of any cache holding only non-blank stored nodes, and the invariant that keeps it so along a history (CacheInv: cached = non-blank node of the tree store; Agree: unflushed nodes never contradict a non-blank stored node) - it makes the cache invisible although it is consulted before the unflushed map (cache_inv_transparent) and survives fills from the store, any eviction, agreeing commits and flush_nodes (cache_inv_fill/evict/insert/flush). Validated (not proved): that the three real backends realise the flat file, that every history keeps Agree (appended nodes sit on fresh slots, a replica's nodes were compared with the stored ones) and that the crate inserts only nodes read from the store, deterministic signatures and flush cadence — by running every history under 6 configurations and the backends against the flat file.",
